@@ -102,7 +102,7 @@ type run struct {
 }
 
 func (x *run) fail(cls, msg string) {
-	x.c.Violation(cls, msg, x.detail)
+	x.c.Violation(cls, mm.Clean(msg), x.detail)
 }
 
 // paginate reads the whole state with the page sizes given by next() and checks the C21 oracle.
